@@ -255,6 +255,52 @@ def run_instance(inst):
             decide(list(zip(st_.reshape(-1), dt_.reshape(-1))), "DATA_clamp", f"clamp vs data_clamp of {state}")
         except Exception as ex:
             viol("DATA_clamp", f"clamp of {state} raised {type(ex).__name__}: {str(ex)[:100]}")
+    # ------------------------------------------------------------------ CHARGE: I nA add exactly I*dt of charge, whatever the geometry
+    if inst.get("charge"):
+        from .. import models
+        from ..sym import lift
+        mc = zoo.build("comp_leak"); mc.record("v", verbose=False)
+        smc = simenc.SymModule(mc)
+        Ic = sym.symvec("Iq", (1, 1))
+        def sim_c(arrays, cur):
+            ds = mc.select(nodes=[0]).data_stimulate(cur, None)
+            return jx.integrate(mc, param_state=smc.pstate(arrays), data_stimuli=ds, **kw)
+        out = sym.to_obj(enc(sim_c, smc.arrays(), Ic))
+        x = out[0, 1]
+        S_ = lambda k: smc.symbol(k, 0)
+        A = lift(2) * lift(models.PI) * S_("radius") * S_("length")
+        imem = lambda u: A * S_("Leak_gLeak") * lift(1000) * (u - S_("Leak_eLeak"))
+        inj = Ic[0, 0] * lift(10 ** 5)             # nA -> (uA/cm^2 * um^2) bookkeeping: A c dv = dt (I 1e5 - A g 1000 (v - E))
+        if solver == "bwd_euler": flow = inj - imem(x)
+        elif solver == "crank_nicolson": flow = inj - (imem(x) + imem(S_("v"))) / lift(2)
+        else: flow = inj - imem(S_("v"))
+        resid = A * S_("capacitance") * (x - S_("v")) - lift(DT) * flow
+        q = smt.Query("C08/CHARGE", flatten_div=True)
+        for nm in sorted(sym.support(resid)):
+            q.declare(nm)
+            if equiv.is_positive_name(nm): q.add(f"(> {nm} 0.0)")
+        if vs == "jax.sparse":
+            for nm, (struct, k, data, b) in stub.origin.items():
+                pass
+        q.add(sym.ne(resid, const(0)))
+        if vs != "jax.sparse":
+            r = q.check(timeout=timeout)
+            res["counters"][f"CHARGE_{r.status}"] = 1
+            if r.status != "unsat":
+                # replay: real API with a non-unit capacitance and odd geometry
+                mr = zoo.build("comp_leak"); mr.record("v", verbose=False)
+                vals = {"radius": 2.3, "length": 17.0, "capacitance": 2.5, "Leak_gLeak": 2e-4, "Leak_eLeak": -61.0, "v": -70.0}
+                for k_, v_ in vals.items(): mr.set(k_, v_)
+                mr.stimulate(jnp.asarray([0.37]), verbose=False)
+                xr = float(np.asarray(jx.integrate(mr, **kw))[0, 1])
+                Af = 2 * models.PI * vals["radius"] * vals["length"]
+                im = lambda u: Af * vals["Leak_gLeak"] * 1000 * (u - vals["Leak_eLeak"])
+                fl = {"bwd_euler": 0.37e5 - im(xr), "crank_nicolson": 0.37e5 - (im(xr) + im(vals["v"])) / 2, "fwd_euler": 0.37e5 - im(vals["v"])}[solver]
+                lhs, rhs = Af * vals["capacitance"] * (xr - vals["v"]), DT * fl
+                if abs(lhs - rhs) > 1e-6 * (abs(lhs) + abs(rhs)):
+                    viol("CHARGE", f"a stimulus of 0.37 nA changed the membrane charge by {lhs:.6g} instead of {rhs:.6g} (A c dv vs dt (I - i_mem)) for capacitance {vals['capacitance']}, radius {vals['radius']}, length {vals['length']} (verdict {r.status})")
+                else:
+                    res["inconclusive"].append({"instance": inst, "query": "CHARGE", "reason": f"{r.status}; concrete replay agrees"})
     res["encode_s"] = time.time() - t0
     res["functions"] = sorted(set().union(*[i.functions for i in its]))
     for i in its:
@@ -269,7 +315,11 @@ def families():
     quick = harness.tier() == "quick"
     mods = ["cell_irreg", "net3_mixed", "branch2_hh"] + ([] if quick else ["comp_hh", "net2_iono", "cell_small", "branch3_leak"])
     combos = [("bwd_euler", "jaxley.stone"), ("crank_nicolson", "jax.sparse")] + ([] if quick else [("bwd_euler", "jaxley.thomas"), ("crank_nicolson", "jaxley.thomas")])
-    return [{"module": mod, "solver": s, "voltage_solver": v, "steps": 3 if quick else 4} for mod in mods for (s, v) in combos]
+    insts = [{"module": mod, "solver": s, "voltage_solver": v, "steps": 3 if quick else 4} for mod in mods for (s, v) in combos]
+    for i in insts:
+        if i["module"] == "branch2_hh": i["charge"] = True       # CHARGE clause once per (solver, backend)
+    insts.append({"module": "branch2_hh", "solver": "crank_nicolson", "voltage_solver": "jaxley.thomas", "steps": 2, "charge": True})
+    return insts
 
 
 def main():
